@@ -232,6 +232,7 @@ class C10(core.Check):
         urwid.connect_signal(e, "change", lambda w_, new: sigs.append([1, txt_of(new), txt_of(w_.edit_text), w_.edit_pos]))
         urwid.connect_signal(e, "postchange", lambda w_, old: sigs.append([2, txt_of(old), txt_of(w_.edit_text), w_.edit_pos]))
         steps_out, lays, obs = [], [], []
+        last_canvas = None       # like a screen, the caller keeps the most recent canvas (only) alive
         for st in case["steps"]:
             del sigs[:]
             kind = st[0]
@@ -253,6 +254,7 @@ class C10(core.Check):
                     ret = ["bool", bool(r)] if isinstance(r, bool) else ["returned", repr(r)]
                 elif kind == "render":
                     c = e.render((w,), bool(st[1]))
+                    last_canvas = c
                     if st[1]:
                         cur = c.cursor
                         ret = ["coords", cur[0], cur[1], c.rows()] if cur is not None else ["coords", None, None, c.rows()]
@@ -280,6 +282,7 @@ class C10(core.Check):
                               "pref": None if pm[0] is None and pm[1] is None else [prefenc(pm[0]), pm[1]],
                               "shiftv": bool(e._shift_view_to_cursor)})
             obs.append(ob)
+        del last_canvas
         return {"steps": steps_out}, lays, obs
 
     def run_impl(self, case):
@@ -423,8 +426,9 @@ class C10(core.Check):
             cap_len = len(case["caption"])
         p = len(t) if case["pos"] is None else min(max(case["pos"], 0), len(t))
         rt = case["text"]        # str reference (characters), used in bytes mode too
-        prefs = None             # None = "the current cursor column"; else (set of acceptable columns, width)
+        prefs = None             # None = "the current cursor column"; else {"cols": [...], "w": width, "cur_ok": bool}
         prev_focus_render_w = None
+        rendered_w = set()       # widths rendered since the last change of text/offset (their canvases may be cached)
         alpha = self._alphabet(v) if numeric else None
 
         def width(c):
@@ -499,15 +503,17 @@ class C10(core.Check):
                     msgs.append(f"{tag}: set_edit_pos({st[1]}) gave offset {np_}, expected {ep}")
                     return msgs
                 p, prefs = ep, None
+                rendered_w = set()
             elif kind in ("render", "prefcol"):
                 if nt != t or np_ != p:
                     msgs.append(f"{tag}: {kind} changed the text or the offset")
                     return msgs
                 if kind == "render":
-                    m = self._judge_render(tag, st, so, ob, rows, q, w, disp_before, isb)
+                    m = self._judge_render(tag, st, so, ob, rows, q, w, disp_before, isb, w in rendered_w)
                     if m:
                         msgs.append(m)
                         return msgs
+                    rendered_w.add(w)
             elif kind == "click":
                 handled = so["ret"] == ["bool", True]
                 if nt != t:
@@ -540,7 +546,9 @@ class C10(core.Check):
                                 msgs.append(f"{tag}: click on the cell ({st[2]},{st[3]}) of the character at offset {o - cap_len} put the cursor at {np_} (handled={handled})")
                                 return msgs
                 p = np_
-                prefs = (None, st[2], w) if handled else prefs
+                if handled:
+                    prefs = {"cols": [st[2]], "w": w, "cur_ok": True}
+                    rendered_w = set()
             elif kind == "key":
                 name = st[1]
                 handled = so["ret"] == ["handled"]
@@ -552,6 +560,10 @@ class C10(core.Check):
                 if m:
                     msgs.append(m)
                     return msgs
+                if handled:
+                    rendered_w = set()
+                elif prefs is not None:
+                    prefs = dict(prefs, cur_ok=True)     # an unhandled key may or may not reset the preferred column
             prev_focus_render_w = w if (kind == "render" and st[1]) else None
             t = nt
             # ---- numeric alphabet
@@ -566,7 +578,7 @@ class C10(core.Check):
                     return msgs
         return msgs
 
-    def _judge_render(self, tag, st, so, ob, rows, q, w, disp, isb):
+    def _judge_render(self, tag, st, so, ob, rows, q, w, disp, isb, maybe_cached):
         from urwid import str_util
         ret = so["ret"]
         canvas = ob.get("canvas")
@@ -608,7 +620,8 @@ class C10(core.Check):
                         break
                     col += cw_
                 if under != ch:
-                    return f"{tag}: the cursor cell ({x},{y}) shows {under!r}, the character at the offset is {ch!r}"
+                    return (f"{tag}: the cursor cell ({x},{y}) shows {under!r}, the character at the offset is {ch!r}"
+                            + (" [a canvas rendered at this width since the last change is still cached]" if maybe_cached else ""))
         return None
 
     def _judge_key(self, tag, case, name, handled, t, p, rt, nt, np_, rows, cap_len, w, prefs, numeric, alpha, isb, enc):
@@ -686,7 +699,17 @@ class C10(core.Check):
                 b = next_char(t, p)
                 exp_t = t[:p] + t[b:]
         else:
-            return self._judge_layout_key(tag, name, handled, t, p, rt, nt, np_, rows, cap_len, w, prefs, isb)
+            k0 = 0
+            if numeric and alpha[2] and handled and nt != t:
+                # leading zeros are removed while the cursor is behind them (after any handled key)
+                k0 = len(t) - len(nt)
+                if k0 <= 0 or t[:k0] != [48] * k0 or t[k0:] != nt or (np_ > 0 and nt[:1] == [48]):
+                    return f"{tag}: a cursor key changed the text {sstr(t)!r} -> {sstr(nt)!r}", p, t, rt, prefs
+            m, p2, _t2, rt2, prefs2 = self._judge_layout_key(tag, name, handled, t, p, rt, t if k0 else nt, np_ + k0, rows,
+                                                              cap_len, w, prefs, isb)
+            if m:
+                return m, p, t, rt, prefs
+            return None, (np_ if p2 == np_ + k0 else p2), (nt if p2 == np_ + k0 else t), rt2, (None if k0 else prefs2)
         ok = (nt == exp_t and np_ == exp_p)
         if not ok and numeric and alpha[2] and exp_h:
             # leading zeros are removed while the cursor is behind them
@@ -738,7 +761,7 @@ class C10(core.Check):
             if tgt is not None and np_ != clamp(tgt):
                 return (f"{tag}: cursor went to offset {np_}; the {'start' if name == 'home' else 'end'} of display row {y} "
                         f"is offset {clamp(tgt)}"), p, t, rt, prefs
-            return None, np_, nt, rt, ("left" if name == "home" else "right", None, w)
+            return None, np_, nt, rt, {"cols": ["left" if name == "home" else "right"], "w": w, "cur_ok": True}
         ty = y - 1 if name == "up" else y + 1
         if not (top[0] <= ty < nrows):
             if handled or np_ != p:
@@ -748,13 +771,13 @@ class C10(core.Check):
         if not handled:
             return f"{tag}: display row {ty} exists but the key was returned unhandled", p, t, rt, prefs
         # acceptable preferred columns
-        cands = [curx]
-        if prefs is not None and prefs[2] == w:
-            cands = [prefs[0] if prefs[0] is not None else prefs[1]]
-            if prefs[0] is not None and prefs[1] is not None:
-                cands.append(prefs[1])
-            if prefs[0] is not None and prefs[1] is None:
-                cands.append(curx)       # 'left'/'right' after home/end, or simply the current column
+        cands = []
+        if prefs is not None:
+            cands += list(prefs["cols"])
+            if prefs["cur_ok"] or prefs["w"] != w:
+                cands.append(curx)
+        else:
+            cands = [curx]
         oks = []
         for c in cands:
             if c == "left":
@@ -779,10 +802,8 @@ class C10(core.Check):
             oks.append(None if exp is None else clamp(exp))
         if None not in oks and np_ not in oks:
             return (f"{tag}: moved to offset {np_}; display row {ty} at preferred column {cands} holds offset(s) {oks}"), p, t, rt, prefs
-        keep = cands[0] if len(cands) == 1 or np_ == oks[0] else cands[-1]
-        if keep in ("left", "right"):
-            return None, np_, nt, rt, (keep, None, w)
-        return None, np_, nt, rt, (None, keep, w)
+        keep = [c for c, o in zip(cands, oks) if o == np_] or cands
+        return None, np_, nt, rt, {"cols": keep, "w": w, "cur_ok": False}
 
     # ------------------------------------------------------------------ bookkeeping
     def nontrivial(self, case, res):
@@ -796,7 +817,7 @@ class C10(core.Check):
     def signature(self, case, msg):
         m = re.sub(r"step#\d+ ", "", msg)
         m = re.sub(r"'[^']*'", "S", m)
-        return re.sub(r"-?\d+", "N", m)[:90]
+        return re.sub(r"-?\d+", "N", m)[:90] + ("[cached]" if "still cached]" in msg else "")
 
     def distribution(self, case, res, dist):
         def inc(k, n=1):
